@@ -26,4 +26,18 @@ PROPS = {
         "theorems": ["offset_exact_or_overflow", "durationSince_exact_or_overflow", "ext_eq_by_value"],
         "assumptions": ["extension values are read from the Debug form of the private structs (Decimal{value}, IPAddr{addr,prefix}, DateTime{epoch}, Duration{ms})"],
     },
+    "C11": {
+        "streams": [("c11", 1000, 60000)],
+        "definitional": False,
+        "rule": "one case = one generated schema (2-5 entity types incl. enumerated ones, memberOfTypes DAG, tags, 2-5 actions + groups, "
+                "0-2 namespaces, common types) loaded by the real ValidatorSchema, its conformant store and requests, and ~20 single-fault "
+                "mutations (wrong type / missing required / undeclared attr at any depth in attrs, tags, context; undeclared tag; ancestor of "
+                "non-permitted type; bad enum id as uid, nested, parent, principal, resource; undeclared type; undeclared / mismatching action; "
+                "principal / resource type not applicable), each through every schema-taking entry point (16 of them, core and public API); "
+                "non-trivial = every datum, distinct by fault tag + verdict + datum JSON",
+        "theorems": [],
+        "assumptions": ["the resolved ValidatorSchema is taken from Rust (schema parsing/resolution is C09's subject)",
+                        "values are concrete: the unknown/residual branches of the Rust checkers accept unconditionally and are outside C11",
+                        "an extension value is identified with the call of its constructor (its return type is its own extension type)"],
+    },
 }
